@@ -23,8 +23,7 @@ def _law(rep, rule, run: Run, facet, decl, want, law_text, show):
     # every comparison that can steer control or indices must be law-preserving
     ncmp = 0
     for ev in run.events("compare"):
-        if ev["fi"] is not fi:
-            continue
+        owner = ev["fi"] or fi
         r = ev["result"]
         e = r.e if isinstance(r, Sc) else getattr(r, "elem", None)
         if e is None:
@@ -72,7 +71,7 @@ def check_shortcuts(rep, project, qual):
     run = Run(project, qual)
     fi = run.fi
     for ev in run.events("sort-columns"):
-        if ev["fi"] is fi:
+        if True:
             rep.refuted("MI-ID", fi, ev["node"],
                         "a diagram's birth and death columns are sorted independently (np.sort(..., axis=0)) and the result "
                         "decides the distance: two different diagrams with the same births and the same deaths, paired "
